@@ -432,9 +432,15 @@ def r9_guard(F):
     for node, env in rng:
         sc = strip(node['scrutinee'])
         it = strip(sc['args'][0]) if sc['k'] == 'Call' and sc['args'] else None
-        if it is None or it['k'] != 'Adt' or canon(it['adt']) != 'std::ops::Range': continue
-        lo = [f['expr'] for f in it['fields'] if f['name'] == 'start'][0]; hi = [f['expr'] for f in it['fields'] if f['name'] == 'end'][0]
-        if fl.ev(lo, env) != ('lit', '0'): continue
+        if it is None: continue
+        if it['k'] == 'Adt' and canon(it['adt']) == 'std::ops::Range':
+            lo = [f['expr'] for f in it['fields'] if f['name'] == 'start'][0]; hi = [f['expr'] for f in it['fields'] if f['name'] == 'end'][0]
+            if fl.ev(lo, env) != ('lit', '0'): continue             # 0..T: T iterations
+        elif it['k'] == 'Call' and callee_name(it) == 'std::ops::RangeInclusive::new':
+            lo, hi = it['args']
+            if fl.ev(lo, env) != ('lit', '1'): continue             # 1..=T: T iterations
+        else:
+            continue
         T = fl.ev(hi, env)
         body = None
         for m_ in walk(node['arms'][0]['body']):
@@ -505,7 +511,8 @@ def site_table_reason(s, F=None):
             R9_STATE[0] = (F, r9_guard(F))
         ok, why = R9_STATE[0][1]
         return why if ok else None
+    base = s.fn.split('::{closure')[0]
     for (fn, what, reason) in SITE_TABLE:
-        if (s.fn == fn or (fn.endswith('{closure#') and s.fn.startswith(fn))) and s.what.startswith(what):
+        if (s.fn == fn or base == fn.split('::{closure')[0]) and s.what.startswith(what):
             return 'site table: ' + reason
     return None
